@@ -492,6 +492,24 @@ def check_C18(tier):
     return c.finish()
 
 
+def check_C19(tier):
+    c = Ctx("C19", tier)
+    q = tier == "quick"
+    cp = c.case_path("C19")
+    c.mc("Meta", "MC_C19.cfg", dict(Deviations="{}", Emit="Emit"), timeout=900, case_file=cp,
+         label="Add -> (Seal/Unseal) -> Tamper -> Get with symbolic boxes: RoundTrip, Authentic, KeyRefusal, Fresh")
+    for dev, inv in [("ConstantNonce", "Fresh"), ("MacNotChecked", "Authentic"), ("ZeroKeyAccepted", "KeyRefusal"), ("PlaintextFallback", "Authentic")]:
+        c.mc("Meta", "MC_C19.cfg", dict(Deviations='{"%s"}' % dev, Emit=""), expect_violation=inv, label="sensitivity: " + dev)
+    c.replay("metaenc", cp, rule="carrier {Meta, delegation, invocation} x {string, bytes} API x 4 plaintext classes x 9 key classes for "
+             "adding x through seal/unseal or not x tamper region {none, nonce, mac, body, truncate, extend} x 9 key classes for reading, "
+             "with the real secretbox; confidentiality and freshness checked on the stored value and the sealed token; non-trivial = added "
+             "under a good key")
+    tr = c.drive("metabits", 400 if q else 0)
+    c.validate("metabits", "TraceMeta", "TraceMeta.cfg", tr, rule=("~400 bits per ciphertext" if q else "EVERY bit of 4 stored ciphertexts")
+               + " flipped and read back with the right key; 300 encryptions per plaintext pairwise distinct (TraceMeta)")
+    return c.finish()
+
+
 CHAIN = {
     "C01": dict(q="MC_C01_q.cfg", t=["MC_C01_t.cfg", "MC_C01_t4.cfg"], dev='{"AudAsSubject"}',
                 rule="every invocation x proof list over principals {A,B,M}(+C), links over all principals, Undef subject and "
@@ -538,7 +556,7 @@ def check_chain(pid):
     return run
 
 
-CHECKS = {"C13": check_C13, "C15": check_C15, "C12": check_C12, "C14": check_C14, "C11": check_C11, "C16": check_C16, "C06": check_envelope("C06"), "C10": check_envelope("C10"), "C07": check_C07, "C17": check_C17, "C18": check_C18}
+CHECKS = {"C13": check_C13, "C15": check_C15, "C12": check_C12, "C14": check_C14, "C11": check_C11, "C16": check_C16, "C06": check_envelope("C06"), "C10": check_envelope("C10"), "C07": check_C07, "C17": check_C17, "C18": check_C18, "C19": check_C19}
 for _p in CHAIN:
     CHECKS[_p] = check_chain(_p)
 
